@@ -197,10 +197,14 @@ class Src:
     def find_impl(self, header):
         """header: e.g. 'impl<P> EepromRange<P>' (where clause excluded). Returns (open_idx, close_idx)."""
         want = norm(header)
+        kw = "impl"
+        if want.startswith("pub trait ") or want.startswith("trait "):
+            kw = "trait"
+            want = want[want.index("trait"):]
         found = []
         for i in self.top_level_items():
             t = self.toks[i]
-            if t.kind == "ident" and t.text == "impl":
+            if t.kind == "ident" and t.text == kw:
                 ob = self.next_open_brace(i)
                 if ob is None:
                     continue
